@@ -48,6 +48,20 @@ Theorem C08_projection :
 Proof. exact projection_cb. Qed.
 Print Assumptions C08_projection.
 
+(* Consequently the platform SET recorded for every node (the key under which get_setmap
+   counts its lines) in the selected run is the full run's set restricted to the
+   selection: the -p setmap is the full setmap with every key intersected with the selection. *)
+Theorem C08_projection_sets :
+  forall (fs : fsys) (fuel : nat) (member : path -> bool) (keep : pname -> bool) (cfg : config) (am : amap),
+    find_cb fs fuel member cfg = Ok am ->
+    exists am', find_cb fs fuel member (select keep cfg) = Ok am' /\
+      forall names x, plats_of (filter keep names) am' x = filter keep (plats_of names am x).
+Proof.
+  intros fs fuel member keep cfg am H. destruct (projection_cb fs fuel member keep cfg am H) as (am' & E & Hin).
+  exists am'. split; [exact E|]. apply projection_sets. exact Hin.
+Qed.
+Print Assumptions C08_projection_sets.
+
 (* Any permutation of the platforms and, inside each platform, of its compile
    commands yields the same attribution relation. *)
 Theorem C08_entry_order :
